@@ -162,6 +162,33 @@ func boundaryOf(p *spec.Program, f *asm.File) map[string]bool {
 			}
 		}
 	}
+	// movement blocks: a label whose block (up to the next blank line or label)
+	// ends in step_end
+	for name, defs := range f.Labels {
+		for _, d := range defs {
+			last := -1
+			for i := d + 1; i < len(f.Lines); i++ {
+				if f.Lines[i].Kind == asm.KMarker {
+					continue
+				}
+				if f.Lines[i].Kind != asm.KInstr {
+					break
+				}
+				last = i
+			}
+			if last >= 0 && f.Lines[last].Op == "step_end" {
+				b[name] = true
+			}
+		}
+	}
+	// labels the hoisting model predicts
+	lm := buildLabelModel(p)
+	for _, t := range lm.Texts {
+		b[t.Label] = true
+	}
+	for _, m := range lm.Moves {
+		b[m.Label] = true
+	}
 	// inline text/moves slots
 	byOp := map[string]*asm.Line{}
 	for i := range f.Lines {
@@ -441,7 +468,20 @@ func vmCheck(k *h.Case, rp *spec.Program, out string, o vmCheckOpts, tag string)
 // normFull renders a full trace with command texts reduced to token sequences.
 func normFull(t *ref.Trace) []string {
 	var out []string
-	for _, e := range t.Events {
+	evs := t.Events
+	if t.Term == "silent-loop" {
+		// the two machines notice a silent loop after a different number of
+		// (identical, side-effect free) tests: compare up to the last command
+		for len(evs) > 0 && evs[len(evs)-1].K != 'c' {
+			evs = evs[:len(evs)-1]
+		}
+	}
+	for _, e := range evs {
+		if e.K == 'q' && e.Name == "switch" {
+			// an all-empty switch may be elided; which var is switched on is
+			// decided by behaviour (C03), not by comparing this event
+			continue
+		}
 		if e.K == 'c' {
 			out = append(out, "cmd "+normLine(e.Text))
 		} else {
